@@ -1,5 +1,5 @@
 """Registry of units and per-property texts (used for MANIFEST.json and the evidence files)."""
-UNITS = ["frame"]
+UNITS = ["frame", "codec", "codec16"]
 
 ENGINE_ASM = ("engine contract (prelude/model.rs): Component/Trame/Array/DynOption of src/model/data.rs are assumed to "
               "serialize as the in-order concatenation of their non-skipped fields and to read field by field "
@@ -26,9 +26,31 @@ PROPERTIES = {
         design_ref="DESIGN.md §7 C14"),
 }
 
+PROPERTIES.update({
+    "C08": dict(
+        scope="BitmapEvent::decompress returns Err or exactly width*height*4 bytes for every width, height, depth, flag and data; process_plane, "
+              "rle_32_decompress, rgb565torgb32 and the raw 16/32 bpp paths are proved free of overflow, out-of-range index and non-termination for all inputs "
+              "(every loop carries a decreases clause; the scanline loops decrease the ghost remaining input); rle_16_decompress: see level_note",
+        technique="contract-based deductive verification: Verus (z3) loop invariants on function bodies extracted from /repo on every run",
+        level_note="trusted: byteorder/std Read contract on Cursor (prelude/base.rs); usize is 64 bit; allocation success of vec![0; n] is not modelled (n is proved <= 2*width*height*4)",
+        assumptions=[IO_ASM, "64-bit usize (global size_of usize == 8)", "memory allocation does not fail"],
+        design_ref="DESIGN.md §7 C08"),
+    "C09": dict(
+        scope="rgb565torgb32 is proved equal, byte for byte and for all 65536 colours, to exact rounding of the 5/6/5-bit channels to 8 bits (B,G,R,0xff); raw 16 bpp and raw 32 bpp "
+              "bitmaps are proved to come out top-down (row h-1-i of the wire image is row i of the result) with the 16 bpp pixels widened; the planar (32 bpp) and interleaved (16 bpp) RLE "
+              "decoders are covered for safety (C08) and by a bounded Kani comparison in the thorough tier, not by an unbounded functional proof",
+        technique="contract-based deductive verification (Verus) for widening and row order; bounded Kani stand-in for the RLE decoders' functional part",
+        level_note="the spec functions round5/round6/flip32/raw16 are written from MS-RDPBCGR 2.2.9.1.1.3.1.2.2 and the definition of rounding, not from the code; RLE functional equivalence is NOT proved unboundedly",
+        assumptions=[IO_ASM, "64-bit usize"],
+        design_ref="DESIGN.md §7 C09"),
+})
+
 NOT_APPLICABLE = {
     "C20": "quantifies over thread schedules, TLS record packings and select(2) readiness: neither Verus nor Kani has a semantics for std::sync / libc::select / native-tls buffering; liveness of the receive thread is not a contract over one call (DESIGN.md §8)",
 }
 
 # what a property's statement mentions but no contract reaches
-UNVERIFIED = {}
+UNVERIFIED = {
+    "C09": ["planar RLE (process_plane / rle_32_decompress) functional equivalence with MS-RDPEGDI 3.1.9: not proved (safety only)",
+            "interleaved RLE (rle_16_decompress) functional equivalence with MS-RDPBCGR 3.1.9: not proved (safety only)"],
+}
